@@ -29,14 +29,32 @@ Proof.
   intros H K. destruct n as [|p]; [cbn; lia|]. unfold b128, to_le128. now apply le128_pos_len.
 Qed.
 
-Lemma b128_blen_64 n : n < 2 ^ 448 -> blen (b128 n) <= 64.
+Lemma b128_blen_lim lim n : 1 <= lim -> n < 128 ^ lim -> blen (b128 n) <= lim.
 Proof.
-  intros H. unfold blen. pose proof (b128_len n 64) as L.
-  change (128 ^ N.of_nat 64) with (2 ^ 448) in L. specialize (L H ltac:(lia)). lia.
+  intros L H. unfold blen. pose proof (b128_len n (N.to_nat lim)) as B.
+  rewrite Nnat.N2Nat.id in B. specialize (B H ltac:(lia)). lia.
 Qed.
 
-Lemma b128_blen_small n : n <= SIZE_LIMIT -> blen (b128 n) <= 64.
-Proof. intros H. apply b128_blen_64. unfold SIZE_LIMIT in H. assert (655360 < 2 ^ 448) by (vm_compute; reflexivity). lia. Qed.
+Lemma from_le128_bound l : forallb (fun d => d <? 128) l = true -> from_le128 l < 128 ^ blen l.
+Proof.
+  induction l as [|d r IH]; intros H; [cbn; lia|].
+  cbn [forallb] in H. apply andb_true_iff in H as [Hd Hr]. specialize (IH Hr).
+  rewrite from_le128_cons, blen_cons, N.pow_add_r, N.pow_1_r.
+  revert IH. generalize (128 ^ blen r) (from_le128 r). intros P F IH. lia.
+Qed.
+
+Lemma b128_fits_iff lim n : 1 <= lim -> (blen (b128 n) <= lim <-> n < 128 ^ lim).
+Proof.
+  intros L. split; [|now apply b128_blen_lim].
+  intros B. pose proof (from_le128_bound (b128 n) (b128_digits n)) as F. rewrite from_b128 in F.
+  eapply N.lt_le_trans; [exact F|]. apply N.pow_le_mono_r; lia.
+Qed.
+
+Lemma largest_long_pow lim : largest_long lim = (Z.of_N (128 ^ lim) - 1)%Z.
+Proof.
+  unfold largest_long. f_equal. rewrite N2Z.inj_pow. change (Z.of_N 128) with (2 ^ 7)%Z.
+  rewrite <- Z.pow_mul_r by lia. reflexivity.
+Qed.
 
 (** ---------------------------------------------------------------- span128 --- *)
 
@@ -84,20 +102,23 @@ Proof.
   cbn in D. apply andb_true_iff in D as [D1 D2]. rewrite D1, (IH D2). reflexivity.
 Qed.
 
+Section Limit.
+Variable lim : N.
+
 (** ---------------------------------------------------------------- step: prefix stability --- *)
 
 Lemma step_shrinks pb buf :
-  match step pb buf with
+  match step lim pb buf with
   | Got _ rest | Open _ rest => (length rest < length buf)%nat
   | _ => True
   end.
 Proof.
   unfold step. destruct (span128 buf) as [num tl] eqn:S. apply span128_eq in S. subst buf.
-  destruct tl as [|ty rest]; [destruct (PREFIX_LIMIT <? blen num); exact I|].
+  destruct tl as [|ty rest]; [destruct (lim <? blen num); exact I|].
   assert (L : forall n, (length (dropN n rest) < length (num ++ ty :: rest))%nat).
   { intros n. pose proof (blen_dropN n rest) as B. unfold blen in B. rewrite app_length. cbn [length]. lia. }
   assert (L0 : (length rest < length (num ++ ty :: rest))%nat) by (rewrite app_length; cbn [length]; lia).
-  destruct (PREFIX_LIMIT <? blen num); [exact I|].
+  destruct (lim <? blen num); [exact I|].
   repeat match goal with
          | |- context [if ?c then _ else _] => destruct c
          | |- context [match vocab_word ?n with _ => _ end] => destruct (vocab_word n)
@@ -122,23 +143,23 @@ Proof.
 Qed.
 
 Lemma step_app pb buf c :
-  match step pb buf with
-  | Got v rest => step pb (buf ++ c) = Got v (rest ++ c)
-  | Open n rest => step pb (buf ++ c) = Open n (rest ++ c)
-  | Fail e => step pb (buf ++ c) = Fail e
+  match step lim pb buf with
+  | Got v rest => step lim pb (buf ++ c) = Got v (rest ++ c)
+  | Open n rest => step lim pb (buf ++ c) = Open n (rest ++ c)
+  | Fail e => step lim pb (buf ++ c) = Fail e
   | NeedMore => True
   end.
 Proof.
   unfold step at 1. destruct (span128 buf) as [num tl] eqn:S.
   destruct tl as [|ty rest].
-  - destruct (PREFIX_LIMIT <? blen num) eqn:P; [|exact I].
+  - destruct (lim <? blen num) eqn:P; [|exact I].
     apply span128_nil_tl in S as [-> D]. unfold step. rewrite (span128_all_digits buf c D).
     destruct (span128 c) as [a b]. cbn [fst snd].
-    assert (PREFIX_LIMIT <? blen (buf ++ a) = true) as P2.
+    assert (lim <? blen (buf ++ a) = true) as P2.
     { pose proof (blen_app_le buf a). lia. }
     destruct b; now rewrite P2.
   - unfold step. rewrite (span128_app_ty buf c num ty rest S).
-    destruct (PREFIX_LIMIT <? blen num); [reflexivity|].
+    destruct (lim <? blen num); [reflexivity|].
     destruct (ty =? LIST); [destruct (SIZE_LIMIT <? from_le128 num); reflexivity|].
     destruct (ty =? STRING).
     { destruct (SIZE_LIMIT <? from_le128 num); [reflexivity|].
@@ -157,21 +178,21 @@ Qed.
 (** ---------------------------------------------------------------- run: fuel and extension --- *)
 
 Lemma run_fuel pb : forall f1 f2 stack buf outs,
-  (length buf <= f1)%nat -> (length buf <= f2)%nat -> run f1 pb stack buf outs = run f2 pb stack buf outs.
+  (length buf <= f1)%nat -> (length buf <= f2)%nat -> run lim f1 pb stack buf outs = run lim f2 pb stack buf outs.
 Proof.
   induction f1 as [|f1 IH]; intros f2 stack buf outs H1 H2.
   - destruct buf; [destruct f2; reflexivity|cbn in H1; lia].
   - destruct buf as [|x buf]; [destruct f2; reflexivity|].
     destruct f2 as [|f2]; [cbn in H2; lia|].
     cbn [run]. pose proof (step_shrinks pb (x :: buf)) as Sh.
-    destruct (step pb (x :: buf)) as [| |v rest|n rest]; try reflexivity.
+    destruct (step lim pb (x :: buf)) as [| |v rest|n rest]; try reflexivity.
     + destruct (deliver stack outs v) as [s1 o1]. apply IH; cbn [length] in *; lia.
     + destruct (close _ _ outs) as [s1 o1]. apply IH; cbn [length] in *; lia.
 Qed.
 
-Definition runL pb stack buf outs := run (length buf) pb stack buf outs.
+Definition runL pb stack buf outs := run lim (length buf) pb stack buf outs.
 
-Lemma run_runL pb f stack buf outs : (length buf <= f)%nat -> run f pb stack buf outs = runL pb stack buf outs.
+Lemma run_runL pb f stack buf outs : (length buf <= f)%nat -> run lim f pb stack buf outs = runL pb stack buf outs.
 Proof. intros H. apply run_fuel; [exact H|lia]. Qed.
 
 Lemma runL_nil pb stack outs : runL pb stack [] outs = mkResult stack [] outs None true.
@@ -180,7 +201,7 @@ Proof. reflexivity. Qed.
 Lemma runL_unfold pb stack buf outs :
   buf <> [] ->
   runL pb stack buf outs =
-  match step pb buf with
+  match step lim pb buf with
   | NeedMore => mkResult stack buf outs None true
   | Fail e => mkResult stack buf outs (Some e) true
   | Got v rest => let '(s1, o1) := deliver stack outs v in runL pb s1 rest o1
@@ -190,7 +211,7 @@ Lemma runL_unfold pb stack buf outs :
 Proof.
   intros NE. destruct buf as [|x buf]; [congruence|]. unfold runL at 1. cbn [length run].
   pose proof (step_shrinks pb (x :: buf)) as Sh.
-  destruct (step pb (x :: buf)) as [| |v rest|n rest]; try reflexivity.
+  destruct (step lim pb (x :: buf)) as [| |v rest|n rest]; try reflexivity.
   - destruct (deliver stack outs v) as [s1 o1]. apply run_runL. cbn [length] in Sh. lia.
   - cbn zeta. destruct (close _ _ outs) as [s1 o1]. apply run_runL. cbn [length] in Sh. lia.
 Qed.
@@ -202,7 +223,7 @@ Proof.
   - destruct buf; [reflexivity|cbn in H; lia].
   - destruct buf as [|x buf]; [reflexivity|]. rewrite runL_unfold by congruence.
     pose proof (step_shrinks pb (x :: buf)) as Sh.
-    destruct (step pb (x :: buf)) as [| |v rest|k rest]; try reflexivity.
+    destruct (step lim pb (x :: buf)) as [| |v rest|k rest]; try reflexivity.
     + destruct (deliver stack outs v). apply IH. cbn [length] in *. lia.
     + cbn zeta. destruct (close _ _ outs). apply IH. cbn [length] in *. lia.
 Qed.
@@ -222,7 +243,7 @@ Proof.
   - destruct buf as [|x buf]; [cbn; reflexivity|].
     cbn zeta. rewrite (runL_unfold pb stack (x :: buf)) by congruence.
     pose proof (step_shrinks pb (x :: buf)) as Sh. pose proof (step_app pb (x :: buf) c) as Ap.
-    destruct (step pb (x :: buf)) as [|e|v rest|k rest] eqn:St.
+    destruct (step lim pb (x :: buf)) as [|e|v rest|k rest] eqn:St.
     + cbn [r_err r_stack r_buf r_outs]. reflexivity.
     + cbn [r_err r_outs]. rewrite (runL_unfold pb stack ((x :: buf) ++ c)) by (cbn; congruence).
       rewrite Ap. cbn. auto.
@@ -242,13 +263,13 @@ Definition same_obs (a b : state) : Prop :=
   st_outs a = st_outs b /\ st_err a = st_err b /\
   (st_err a = None -> st_stack a = st_stack b /\ st_buf a = st_buf b).
 
-Lemma feed_whole pb B : feed pb init B = state_of (runL pb [] B []).
+Lemma feed_whole pb B : feed lim pb init B = state_of (runL pb [] B []).
 Proof. destruct B; reflexivity. Qed.
 
-Lemma feed_dead pb st c : st_err st <> None -> feed pb st c = st.
+Lemma feed_dead pb st c : st_err st <> None -> feed lim pb st c = st.
 Proof. unfold feed. destruct (st_err st); [reflexivity|congruence]. Qed.
 
-Lemma feed_all_dead pb cs : forall st, st_err st <> None -> feed_all pb st cs = st.
+Lemma feed_all_dead pb cs : forall st, st_err st <> None -> feed_all lim pb st cs = st.
 Proof.
   induction cs as [|c cs IH]; intros st H; [reflexivity|].
   cbn. rewrite feed_dead by exact H. now apply IH.
@@ -256,7 +277,7 @@ Qed.
 
 Lemma feed_after pb B c :
   c <> [] ->
-  same_obs (feed pb (state_of (runL pb [] B [])) c) (state_of (runL pb [] (B ++ c) [])).
+  same_obs (feed lim pb (state_of (runL pb [] B [])) c) (state_of (runL pb [] (B ++ c) [])).
 Proof.
   intros NE. destruct c as [|y c]; [congruence|].
   pose proof (runL_app pb (y :: c) (length B) [] B [] (le_n _)) as A. cbn zeta in A.
@@ -265,7 +286,7 @@ Proof.
   unfold feed, state_of. cbn [st_err st_buf st_stack st_outs r_err r_stack r_buf r_outs].
   destruct re as [e|].
   - destruct A as [A1 A2]. unfold same_obs. cbn [st_outs st_err]. rewrite A1, A2. repeat split; congruence.
-  - change (run (length (rb ++ y :: c)) pb rs (rb ++ y :: c) ro) with (runL pb rs (rb ++ y :: c) ro).
+  - change (run lim (length (rb ++ y :: c)) pb rs (rb ++ y :: c) ro) with (runL pb rs (rb ++ y :: c) ro).
     rewrite <- A. unfold same_obs. cbn. auto.
 Qed.
 
@@ -280,7 +301,7 @@ Proof.
 Qed.
 
 (** feeding respects same_obs *)
-Lemma feed_same_obs pb a b c : same_obs a b -> same_obs (feed pb a c) (feed pb b c).
+Lemma feed_same_obs pb a b c : same_obs a b -> same_obs (feed lim pb a c) (feed lim pb b c).
 Proof.
   intros (H1 & H2 & H3). destruct (st_err a) as [e|] eqn:E.
   - rewrite !feed_dead by congruence. unfold same_obs. rewrite E. repeat split; congruence.
@@ -288,11 +309,11 @@ Proof.
     apply same_obs_refl.
 Qed.
 
-Lemma feed_all_cons pb st c cs : feed_all pb st (c :: cs) = feed_all pb (feed pb st c) cs.
+Lemma feed_all_cons pb st c cs : feed_all lim pb st (c :: cs) = feed_all lim pb (feed lim pb st c) cs.
 Proof. reflexivity. Qed.
 
 Lemma feed_all_same_obs pb cs : forall s1 s2,
-  same_obs s1 s2 -> same_obs (feed_all pb s1 cs) (feed_all pb s2 cs).
+  same_obs s1 s2 -> same_obs (feed_all lim pb s1 cs) (feed_all lim pb s2 cs).
 Proof.
   induction cs as [|c cs IH]; intros s1 s2 A; [exact A|].
   rewrite !feed_all_cons. apply IH. now apply feed_same_obs.
@@ -300,7 +321,7 @@ Qed.
 
 Lemma feed_all_split pb : forall cs B,
   Forall (fun c => c <> []) cs ->
-  same_obs (feed_all pb (state_of (runL pb [] B [])) cs) (state_of (runL pb [] (B ++ concat cs) [])).
+  same_obs (feed_all lim pb (state_of (runL pb [] B [])) cs) (state_of (runL pb [] (B ++ concat cs) [])).
 Proof.
   induction cs as [|c cs IH]; intros B F.
   - cbn. rewrite app_nil_r. apply same_obs_refl.
@@ -311,7 +332,7 @@ Proof.
 Qed.
 
 Lemma any_split pb cs :
-  Forall (fun c => c <> []) cs -> same_obs (feed_all pb init cs) (feed pb init (concat cs)).
+  Forall (fun c => c <> []) cs -> same_obs (feed_all lim pb init cs) (feed lim pb init (concat cs)).
 Proof.
   intros F. rewrite feed_whole. exact (feed_all_split pb cs [] F).
 Qed.
@@ -363,20 +384,21 @@ Fixpoint sexp_ind2 (P : sexp -> Prop)
   end.
 
 Lemma encode_list pb l :
-  encode pb (SList l) =
+  encode lim pb (SList l) =
   if SIZE_LIMIT <? blen l then Err ValueError
-  else bind (encode_all pb l) (fun body => Ok (b128 (blen l) ++ [LIST] ++ body)).
+  else bind (encode_all lim pb l) (fun body => Ok (b128 (blen l) ++ [LIST] ++ body)).
 Proof.
   cbn [encode]. destruct (SIZE_LIMIT <? blen l); [reflexivity|]. f_equal.
   induction l as [|x r IH]; [reflexivity|]. cbn [encode_all]. now rewrite IH.
 Qed.
 
-Lemma wf_list l : wf (SList l) <-> blen l <= SIZE_LIMIT /\ Forall wf l.
+Lemma wf_list l : wf lim (SList l) <-> (blen l <= SIZE_LIMIT /\ blen l < 128 ^ lim) /\ Forall (wf lim) l.
 Proof.
-  cbn [wf]. split; intros [H1 H2]; split; try exact H1.
-  - induction l as [|x r IH]; [constructor|]. destruct H2 as [Hx Hr]. constructor; [exact Hx|].
-    apply IH; [rewrite blen_cons in H1; lia|exact Hr].
-  - induction H2 as [|x r Hx _ IH]; [exact I|]. split; [exact Hx|]. apply IH. rewrite blen_cons in H1. lia.
+  cbn [wf]. split.
+  - intros (H1 & H0 & H2). split; [split; assumption|]. clear H1 H0.
+    induction l as [|x r IH]; [constructor|]. destruct H2 as [Hx Hr]. constructor; [exact Hx|]. now apply IH.
+  - intros ((H1 & H0) & H2). split; [exact H1|]. split; [exact H0|]. clear H1 H0.
+    induction H2 as [|x r Hx _ IH]; [exact I|]. split; [exact Hx|exact IH].
 Qed.
 
 (** vocabulary table: ids and words are inverse, ids are one digit *)
@@ -408,17 +430,23 @@ Proof.
   apply andb_true_iff in V as [V1 V2]. apply lists_eqb_eq in V1. subst. split; [reflexivity|lia].
 Qed.
 
-Lemma b128_one_digit i : i < 128 -> blen (b128 i) <= 64.
-Proof. intros H. apply b128_blen_64. assert (128 < 2 ^ 448) by (vm_compute; reflexivity). lia. Qed.
+(** from here on the limit is at least 1 (with 0 not even the integer 0 could be read back) *)
+Hypothesis LIM : 1 <= lim.
+
+Lemma pow128_ge lim' : 1 <= lim' -> 128 <= 128 ^ lim'.
+Proof. intros L. replace 128 with (128 ^ 1) at 1 by reflexivity. apply N.pow_le_mono_r; lia. Qed.
+
+Lemma b128_one_digit i : i < 128 -> blen (b128 i) <= lim.
+Proof. intros H. apply b128_blen_lim; [exact LIM|]. pose proof (pow128_ge lim LIM). lia. Qed.
 
 (** decoding one encoded atom *)
 Lemma step_prefix (pb : bool) n ty rest :
-  128 <= ty -> blen (b128 n) <= 64 ->
-  span128 (b128 n ++ ty :: rest) = (b128 n, ty :: rest) /\ (PREFIX_LIMIT <? blen (b128 n)) = false
+  128 <= ty -> blen (b128 n) <= lim ->
+  span128 (b128 n ++ ty :: rest) = (b128 n, ty :: rest) /\ (lim <? blen (b128 n)) = false
   /\ from_le128 (b128 n) = n.
 Proof.
   intros T L. split; [apply span128_digits; [apply b128_digits|exact T]|].
-  split; [unfold PREFIX_LIMIT; lia|apply from_b128].
+  split; [lia|apply from_b128].
 Qed.
 
 (** evaluate the comparisons between type-byte constants *)
@@ -433,16 +461,14 @@ Ltac tyconst :=
          end;
   cbn [orb]; cbv beta iota.
 
-Lemma pow448 : (2 ^ 448)%Z = Z.of_N (2 ^ 448).
-Proof. vm_compute. reflexivity. Qed.
 
 Lemma step_encoded_int pb z b tail :
-  encode_int z = Ok b -> step pb (b ++ tail) = Got (SInt z) tail.
+  encode_int lim z = Ok b -> step lim pb (b ++ tail) = Got (SInt z) tail.
 Proof.
-  unfold encode_int. unfold LARGEST_LONG. rewrite pow448.
-  destruct ((z <? - (Z.of_N (2 ^ 448) - 1)) || (z >? Z.of_N (2 ^ 448) - 1))%Z eqn:R; [discriminate|].
-  assert (Hn : forall m, m = Z.to_N (- z) \/ m = Z.to_N z -> blen (b128 m) <= 64).
-  { intros m Hm. apply b128_blen_64. lia. }
+  unfold encode_int. rewrite largest_long_pow.
+  destruct ((z <? - (Z.of_N (128 ^ lim) - 1)) || (z >? Z.of_N (128 ^ lim) - 1))%Z eqn:R; [discriminate|].
+  assert (Hn : forall m, m = Z.to_N (- z) \/ m = Z.to_N z -> blen (b128 m) <= lim).
+  { intros m Hm. apply b128_blen_lim; [exact LIM|]. lia. }
   unfold SMALLEST_INT, LARGEST_INT.
   destruct (z <? - 2 ^ 31)%Z eqn:E1; [|destruct (z <? 0)%Z eqn:E2; [|destruct (z <=? 2 ^ 31 - 1)%Z eqn:E3]];
     intros H; inversion H; subst b; clear H; rewrite <- app_assoc; cbn [app]; unfold step.
@@ -457,9 +483,9 @@ Proof.
 Qed.
 
 Lemma step_encoded_str pb s b tail :
-  encode_str pb s = Ok b -> step pb (b ++ tail) = Got (SStr s) tail.
+  blen s < 128 ^ lim -> encode_str pb s = Ok b -> step lim pb (b ++ tail) = Got (SStr s) tail.
 Proof.
-  unfold encode_str. destruct pb.
+  intros FIT. unfold encode_str. destruct pb.
   - destruct (vocab_id s) as [i|] eqn:V.
     + intros H; inversion H; subst b; clear H. apply vocab_roundtrip in V as [W I].
       rewrite <- app_assoc; cbn [app]. unfold step.
@@ -468,33 +494,33 @@ Proof.
     + destruct (SIZE_LIMIT <? blen s) eqn:L; [discriminate|].
       intros H; inversion H; subst b; clear H. rewrite <- !app_assoc; cbn [app]. unfold step.
       destruct (step_prefix true (blen s) STRING (s ++ tail)) as (S & P & F);
-        [unfold STRING; lia|apply b128_blen_small; lia|].
+        [unfold STRING; lia|apply b128_blen_lim; [exact LIM|exact FIT]|].
       rewrite S, P, F. tyconst. rewrite L.
       replace (blen s <=? blen (s ++ tail)) with true by (rewrite blen_app; lia).
       now rewrite takeN_app_exact, dropN_app_exact.
   - destruct (SIZE_LIMIT <? blen s) eqn:L; [discriminate|].
     intros H; inversion H; subst b; clear H. rewrite <- !app_assoc; cbn [app]. unfold step.
     destruct (step_prefix false (blen s) STRING (s ++ tail)) as (S & P & F);
-      [unfold STRING; lia|apply b128_blen_small; lia|].
+      [unfold STRING; lia|apply b128_blen_lim; [exact LIM|exact FIT]|].
     rewrite S, P, F. tyconst. rewrite L.
     replace (blen s <=? blen (s ++ tail)) with true by (rewrite blen_app; lia).
     now rewrite takeN_app_exact, dropN_app_exact.
 Qed.
 
 Lemma step_encoded_float pb f tail :
-  blen f = 8 -> step pb (FLOAT :: f ++ tail) = Got (SFloat f) tail.
+  blen f = 8 -> step lim pb (FLOAT :: f ++ tail) = Got (SFloat f) tail.
 Proof.
   intros L. unfold step. cbn [span128]. change (FLOAT <? 128) with false. cbv beta iota.
-  change (PREFIX_LIMIT <? blen []) with false. tyconst.
+  replace (lim <? blen (@nil N)) with false by (change (blen (@nil N)) with 0; lia). tyconst.
   replace (8 <=? blen (f ++ tail)) with true by (rewrite blen_app; lia).
   rewrite <- L. now rewrite takeN_app_exact, dropN_app_exact.
 Qed.
 
 Lemma step_encoded_open pb n tail :
-  n <= SIZE_LIMIT -> step pb (b128 n ++ LIST :: tail) = Open n tail.
+  n <= SIZE_LIMIT -> n < 128 ^ lim -> step lim pb (b128 n ++ LIST :: tail) = Open n tail.
 Proof.
-  intros L. unfold step.
-  destruct (step_prefix pb n LIST tail) as (S & P & F); [unfold LIST; lia|now apply b128_blen_small|].
+  intros L FIT. unfold step.
+  destruct (step_prefix pb n LIST tail) as (S & P & F); [unfold LIST; lia|now apply b128_blen_lim|].
   rewrite S, P, F. tyconst.
   replace (SIZE_LIMIT <? n) with false by lia. reflexivity.
 Qed.
@@ -511,7 +537,7 @@ Qed.
 
 (** one encoded expression in front of any tail, under any stack of open lists *)
 Lemma run_encoded pb e :
-  wf e -> forall b, encode pb e = Ok b -> forall stack tail outs,
+  wf lim e -> forall b, encode lim pb e = Ok b -> forall stack tail outs,
   runL pb stack (b ++ tail) outs = let '(s1, o1) := deliver stack outs e in runL pb s1 tail o1.
 Proof.
   induction e as [z|s|f|l IH] using sexp_ind2; intros W b E stack tail outs.
@@ -520,7 +546,7 @@ Proof.
     + unfold encode_int in E. repeat match type of E with context [if ?c then _ else _] => destruct c end;
         try discriminate; inversion E; apply app_not_nil_l, app_not_nil_l, b128_not_nil.
   - cbn [encode] in E. rewrite runL_unfold.
-    + now rewrite (step_encoded_str pb s b tail E).
+    + cbn [wf] in W. now rewrite (step_encoded_str pb s b tail (proj2 W) E).
     + unfold encode_str in E.
       repeat match type of E with
              | context [match ?c with Some _ => _ | None => _ end] => destruct c
@@ -529,27 +555,27 @@ Proof.
   - cbn [encode] in E. inversion E; subst b. cbn [wf] in W. cbn [app].
     rewrite runL_unfold by congruence.
     now rewrite (step_encoded_float pb f tail W).
-  - rewrite encode_list in E. apply wf_list in W as [WL WF].
+  - rewrite encode_list in E. apply wf_list in W as [[WL WFIT] WF].
     destruct (SIZE_LIMIT <? blen l) eqn:SL; [discriminate|].
-    destruct (encode_all pb l) as [body|] eqn:EA; [|discriminate]. cbn [bind] in E. inversion E; subst b; clear E.
+    destruct (encode_all lim pb l) as [body|] eqn:EA; [|discriminate]. cbn [bind] in E. inversion E; subst b; clear E.
     rewrite <- !app_assoc. cbn [app]. rewrite runL_unfold by (apply app_not_nil_l, b128_not_nil).
-    rewrite step_encoded_open by exact WL. cbn zeta. rewrite open_frame.
+    rewrite step_encoded_open by assumption. cbn zeta. rewrite open_frame.
     destruct (blen l =? 0) eqn:Z.
     + assert (l = []) by (destruct l; [reflexivity|rewrite blen_cons in Z; lia]). subst l.
       cbn in EA. inversion EA; subst body. reflexivity.
     + (* the elements, one after the other, into the open frame *)
       assert (G : forall rest done body,
-                 Forall (fun e => wf e -> forall b, encode pb e = Ok b -> forall stack tail outs,
+                 Forall (fun e => wf lim e -> forall b, encode lim pb e = Ok b -> forall stack tail outs,
                            runL pb stack (b ++ tail) outs
                            = let '(s1, o1) := deliver stack outs e in runL pb s1 tail o1) rest ->
-                 Forall wf rest -> encode_all pb rest = Ok body -> rest <> [] ->
+                 Forall (wf lim) rest -> encode_all lim pb rest = Ok body -> rest <> [] ->
                  blen done + blen rest = blen l ->
                  runL pb ((blen l, done) :: stack) (body ++ tail) outs
                  = let '(s1, o1) := deliver stack outs (SList (done ++ rest)) in runL pb s1 tail o1).
       { clear IH WF EA body. induction rest as [|x rest IHr]; intros done body FI FW EA NE LEN; [congruence|].
         inversion FI as [|? ? Hx FI']; subst. inversion FW as [|? ? Wx FW']; subst.
-        cbn [encode_all] in EA. destruct (encode pb x) as [bx|] eqn:Ex; [|discriminate].
-        remember (encode_all pb rest) as ea eqn:Er in EA. symmetry in Er.
+        cbn [encode_all] in EA. destruct (encode lim pb x) as [bx|] eqn:Ex; [|discriminate].
+        remember (encode_all lim pb rest) as ea eqn:Er in EA. symmetry in Er.
         destruct ea as [br|]; [|discriminate]. cbn [bind] in EA.
         inversion EA; subst body; clear EA. rewrite <- app_assoc.
         rewrite (Hx Wx bx eq_refl). rewrite deliver_frame.
@@ -567,86 +593,96 @@ Proof.
 Qed.
 
 (** a stream of expressions *)
-Lemma run_encoded_all pb : forall es b, Forall wf es -> encode_all pb es = Ok b -> forall outs,
+Lemma run_encoded_all pb : forall es b, Forall (wf lim) es -> encode_all lim pb es = Ok b -> forall outs,
   runL pb [] b outs = mkResult [] [] (outs ++ es) None true.
 Proof.
   induction es as [|e es IH]; intros b W E outs.
   - cbn in E. inversion E. rewrite app_nil_r. reflexivity.
   - inversion W as [|? ? We Wes]; subst. cbn [encode_all] in E.
-    destruct (encode pb e) as [be|] eqn:Ee; [|discriminate].
-    destruct (encode_all pb es) as [bes|] eqn:Ees; [|discriminate]. cbn [bind] in E. inversion E; subst b.
+    destruct (encode lim pb e) as [be|] eqn:Ee; [|discriminate].
+    destruct (encode_all lim pb es) as [bes|] eqn:Ees; [|discriminate]. cbn [bind] in E. inversion E; subst b.
     rewrite (run_encoded pb e We be Ee [] bes outs). rewrite deliver_nil.
     rewrite (IH bes Wes eq_refl). now rewrite <- app_assoc.
 Qed.
 
 (** the encoder accepts exactly the well-formed expressions *)
-Lemma encode_total pb e : wf e -> exists b, encode pb e = Ok b.
-Proof.
+Lemma encode_total pb e : wf lim e -> exists b, encode lim pb e = Ok b.
+Proof. clear LIM.
   induction e as [z|s|f|l IH] using sexp_ind2; intros W.
   - cbn [wf] in W. cbn [encode]. unfold encode_int.
-    destruct ((z <? - LARGEST_LONG) || (z >? LARGEST_LONG))%Z eqn:R; [lia|].
+    destruct ((z <? - (largest_long lim)) || (z >? (largest_long lim)))%Z eqn:R; [lia|].
     repeat match goal with |- context [if ?c then _ else _] => destruct c end; eauto.
   - cbn [wf] in W. cbn [encode]. unfold encode_str.
     destruct (if pb then vocab_id s else None); [eauto|].
     destruct (SIZE_LIMIT <? blen s) eqn:L; [lia|eauto].
   - cbn [encode]. eauto.
-  - apply wf_list in W as [WL WF]. rewrite encode_list.
+  - apply wf_list in W as [[WL WFIT] WF]. rewrite encode_list.
     destruct (SIZE_LIMIT <? blen l) eqn:L; [lia|].
-    assert (exists body, encode_all pb l = Ok body) as [body EB].
-    { clear WL L. induction WF as [|x r Wx Wr IHr]; [eexists; reflexivity|].
+    assert (exists body, encode_all lim pb l = Ok body) as [body EB].
+    { clear WL L WFIT. induction WF as [|x r Wx Wr IHr]; [eexists; reflexivity|].
       inversion IH as [|? ? Hx Hr]; subst. destruct (Hx Wx) as [bx Ex]. destruct (IHr Hr) as [br Er].
       cbn [encode_all]. rewrite Ex, Er. eexists; reflexivity. }
     rewrite EB. eexists; reflexivity.
 Qed.
 
-Lemma encode_refuses_int pb z : (z < - LARGEST_LONG \/ LARGEST_LONG < z)%Z -> encode pb (SInt z) = Err ValueError.
+(** an integer is sent iff it needs at most [lim] base-128 digits *)
+Lemma int_encodable_iff_digits pb z :
+  (exists b, encode lim pb (SInt z) = Ok b) <-> blen (b128 (Z.abs_N z)) <= lim.
 Proof.
-  intros H. cbn [encode]. unfold encode_int.
-  destruct ((z <? - LARGEST_LONG) || (z >? LARGEST_LONG))%Z eqn:R; [reflexivity|lia].
+  rewrite (b128_fits_iff lim (Z.abs_N z) LIM). split.
+  - intros [b E]. cbn [encode] in E. unfold encode_int in E. rewrite largest_long_pow in E.
+    destruct ((z <? - (Z.of_N (128 ^ lim) - 1)) || (z >? Z.of_N (128 ^ lim) - 1))%Z eqn:R; [discriminate|]. lia.
+  - intros H. apply encode_total. cbn [wf]. rewrite largest_long_pow. lia.
 Qed.
 
-Lemma encode_refuses_long_list pb l : SIZE_LIMIT < blen l -> encode pb (SList l) = Err ValueError.
-Proof. intros H. rewrite encode_list. destruct (SIZE_LIMIT <? blen l) eqn:L; [reflexivity|lia]. Qed.
+Lemma encode_refuses_int pb z : (z < - (largest_long lim) \/ (largest_long lim) < z)%Z -> encode lim pb (SInt z) = Err ValueError.
+Proof. clear LIM.
+  intros H. cbn [encode]. unfold encode_int.
+  destruct ((z <? - (largest_long lim)) || (z >? (largest_long lim)))%Z eqn:R; [reflexivity|lia].
+Qed.
 
-Lemma encode_refuses_long_str s : SIZE_LIMIT < blen s -> encode false (SStr s) = Err ValueError.
-Proof. intros H. cbn. unfold encode_str. destruct (SIZE_LIMIT <? blen s) eqn:L; [reflexivity|lia]. Qed.
+Lemma encode_refuses_long_list pb l : SIZE_LIMIT < blen l -> encode lim pb (SList l) = Err ValueError.
+Proof. clear LIM. intros H. rewrite encode_list. destruct (SIZE_LIMIT <? blen l) eqn:L; [reflexivity|lia]. Qed.
+
+Lemma encode_refuses_long_str s : SIZE_LIMIT < blen s -> encode lim false (SStr s) = Err ValueError.
+Proof. clear LIM. intros H. cbn. unfold encode_str. destruct (SIZE_LIMIT <? blen s) eqn:L; [reflexivity|lia]. Qed.
 
 (** refusal on decode *)
 Lemma step_refuses_long_prefix pb digits tl :
-  forallb (fun d => d <? 128) digits = true -> PREFIX_LIMIT < blen digits ->
+  forallb (fun d => d <? 128) digits = true -> lim < blen digits ->
   (tl = [] \/ exists ty rest, tl = ty :: rest /\ 128 <= ty) ->
-  step pb (digits ++ tl) = Fail ValueError.
-Proof.
+  step lim pb (digits ++ tl) = Fail ValueError.
+Proof. clear LIM.
   intros D L [->|(ty & rest & -> & T)]; unfold step.
   - rewrite (span128_all_digits digits [] D). cbn [span128 fst snd]. rewrite app_nil_r.
-    replace (PREFIX_LIMIT <? blen digits) with true by lia. reflexivity.
-  - rewrite (span128_digits digits ty rest D T). replace (PREFIX_LIMIT <? blen digits) with true by lia. reflexivity.
+    replace (lim <? blen digits) with true by lia. reflexivity.
+  - rewrite (span128_digits digits ty rest D T). replace (lim <? blen digits) with true by lia. reflexivity.
 Qed.
 
 Lemma step_refuses_big_length pb digits ty rest :
-  forallb (fun d => d <? 128) digits = true -> blen digits <= PREFIX_LIMIT ->
+  forallb (fun d => d <? 128) digits = true -> blen digits <= lim ->
   (ty = LIST \/ ty = STRING) -> SIZE_LIMIT < from_le128 digits ->
-  step pb (digits ++ ty :: rest) = Fail ValueError.
-Proof.
+  step lim pb (digits ++ ty :: rest) = Fail ValueError.
+Proof. clear LIM.
   intros D L T S. unfold step. rewrite (span128_digits digits ty rest D) by (destruct T; subst; unfold LIST, STRING; lia).
-  replace (PREFIX_LIMIT <? blen digits) with false by lia.
+  replace (lim <? blen digits) with false by lia.
   destruct T; subst ty; tyconst;
     replace (SIZE_LIMIT <? from_le128 digits) with true by lia; reflexivity.
 Qed.
 
 (** ---------------------------------------------------------------- sender histories --- *)
 
-Lemma encode_sequence_lemma pb es : encode_all pb (filter (accepts pb) es) = Ok (send_all pb es).
-Proof.
+Lemma encode_sequence_lemma pb es : encode_all lim pb (filter (accepts lim pb) es) = Ok (send_all lim pb es).
+Proof. clear LIM.
   induction es as [|e r IH]; [reflexivity|].
-  cbn [filter send_all]. unfold accepts at 1. destruct (encode pb e) as [b|x] eqn:E; [|exact IH].
+  cbn [filter send_all]. unfold accepts at 1. destruct (encode lim pb e) as [b|x] eqn:E; [|exact IH].
   cbn [encode_all]. rewrite E, IH. reflexivity.
 Qed.
 
 Lemma sender_history pb es chunks :
-  Forall wf (filter (accepts pb) es) -> concat chunks = send_all pb es -> Forall (fun c => c <> []) chunks ->
-  let s := feed_all pb init chunks in
-  st_outs s = filter (accepts pb) es /\ st_err s = None /\ st_stack s = [] /\ st_buf s = [].
+  Forall (wf lim) (filter (accepts lim pb) es) -> concat chunks = send_all lim pb es -> Forall (fun c => c <> []) chunks ->
+  let s := feed_all lim pb init chunks in
+  st_outs s = filter (accepts lim pb) es /\ st_err s = None /\ st_stack s = [] /\ st_buf s = [].
 Proof.
   intros W C F s.
   destruct (any_split pb chunks F) as (H1 & H2 & H3).
@@ -654,6 +690,51 @@ Proof.
   cbn in H1, H2, H3. destruct (H3 H2) as [H4 H5]. subst s. auto.
 Qed.
 
+End Limit.
+
 Example wf_example :
-  wf (SList [SInt (-5); SInt (2 ^ 447); SStr [108;105;115;116]; SFloat [64;9;33;251;84;68;45;24]; SList []; SList [SList [SInt 0]]]).
-Proof. cbn. unfold LARGEST_LONG, SIZE_LIMIT. repeat split; try lia; cbn; lia. Qed.
+  wf 64 (SList [SInt (-5); SInt (2 ^ 447); SStr [108;105;115;116]; SFloat [64;9;33;251;84;68;45;24]; SList []; SList [SList [SInt 0]]])
+  /\ wf 2 (SList [SInt 16383; SInt (-16383); SStr [1;2;3]]) /\ ~ wf 2 (SInt 16384).
+Proof.
+  unfold wf, largest_long, SIZE_LIMIT.
+  change (7 * Z.of_N 64)%Z with 448%Z. change (7 * Z.of_N 2)%Z with 14%Z. change (2 ^ 14 - 1)%Z with 16383%Z.
+  repeat split; try lia; try (vm_compute; reflexivity); try (vm_compute; discriminate).
+Qed.
+
+(** ---------------------------------------------------------------- statements as exported --- *)
+
+Lemma roundtrip_any_split lim pb es b chunks :
+  1 <= lim -> Forall (wf lim) es -> encode_all lim pb es = Ok b ->
+  concat chunks = b -> Forall (fun c => c <> []) chunks ->
+  let s := feed_all lim pb init chunks in
+  st_outs s = es /\ st_err s = None /\ st_stack s = [] /\ st_buf s = [].
+Proof.
+  intros LIM W E C F s.
+  destruct (any_split lim pb chunks F) as (H1 & H2 & H3).
+  rewrite C, feed_whole, (run_encoded_all lim LIM pb es b W E []) in H1, H2, H3.
+  cbn in H1, H2, H3. destruct (H3 H2) as [H4 H5]. subst s. auto.
+Qed.
+
+Lemma refusals_on_encode lim pb z l s :
+  ((z < - largest_long lim \/ largest_long lim < z)%Z -> encode lim pb (SInt z) = Err ValueError) /\
+  (SIZE_LIMIT < blen l -> encode lim pb (SList l) = Err ValueError) /\
+  (SIZE_LIMIT < blen s -> encode lim false (SStr s) = Err ValueError).
+Proof.
+  exact (conj (encode_refuses_int lim pb z) (conj (encode_refuses_long_list lim pb l) (encode_refuses_long_str lim s))).
+Qed.
+
+Lemma refusals_on_decode lim pb digits :
+  forallb (fun d => d <? 128) digits = true ->
+  (lim < blen digits ->
+     forall tl, (tl = [] \/ exists ty rest, tl = ty :: rest /\ 128 <= ty) ->
+     step lim pb (digits ++ tl) = Fail ValueError) /\
+  (blen digits <= lim -> SIZE_LIMIT < from_le128 digits ->
+     forall ty rest, (ty = LIST \/ ty = STRING) -> step lim pb (digits ++ ty :: rest) = Fail ValueError).
+Proof.
+  intros D. split.
+  - intros L tl T. exact (step_refuses_long_prefix lim pb digits tl D L T).
+  - intros L S ty rest T. exact (step_refuses_big_length lim pb digits ty rest D L T S).
+Qed.
+
+Lemma fuel_ok_lemma lim pb stack buf outs : r_fuel_ok (run lim (length buf) pb stack buf outs) = true.
+Proof. exact (runL_fuel_ok lim pb (length buf) stack buf outs (le_n _)). Qed.
